@@ -223,3 +223,115 @@ func SortedKeys(m map[string]val.Val) []string {
 	sort.Strings(ks)
 	return ks
 }
+
+// ---------------------------------------------------------------------------
+// Gallina printing of schemas and rows
+
+func coqAType(t byte) string {
+	switch t {
+	case 'i':
+		return "TInt"
+	case 'r':
+		return "TReal"
+	case 'b':
+		return "TBool"
+	case 's':
+		return "TStr"
+	default:
+		return "TUuid"
+	}
+}
+
+func coqBase(s *val.Syms, t byte, enum []val.Atom, refT, refTy string) string {
+	ref := "None"
+	if refT != "" {
+		rt := "Strong"
+		if refTy == "weak" {
+			rt = "Weak"
+		}
+		ref = fmt.Sprintf("(Some (%d%%N, %s))", s.ID(refT), rt)
+	}
+	return fmt.Sprintf("(mkBase %s %s %s)", coqAType(t), s.AtomList(enum), ref)
+}
+
+// CoqCol prints a [column] term.
+func CoqCol(s *val.Syms, c val.Col) string {
+	kind := map[byte]string{'a': "KAtom", 'o': "KOpt", 's': "KSet", 'm': "KMap"}[c.K]
+	vt := "None"
+	if c.K == 'm' {
+		vt = "(Some " + coqBase(s, c.VT, nil, c.VRefTable, c.VRefType) + ")"
+	}
+	min, max := c.Min, "None"
+	switch c.K {
+	case 'a':
+		min, max = 1, "(Some 1%nat)"
+	case 'o':
+		min, max = 0, "(Some 1%nat)"
+	default:
+		if c.Max >= 0 {
+			max = fmt.Sprintf("(Some %d%%nat)", c.Max)
+		}
+	}
+	return fmt.Sprintf("mkCol %d%%N (mkColTy %s %s %s %d%%nat %s) %v",
+		s.ID(c.Name), kind, coqBase(s, c.KT, c.Enum, c.RefTable, c.RefType), vt, min, max, !c.Immutable)
+}
+
+// CoqTable prints a [table] term.
+func CoqTable(s *val.Syms, t Table) string {
+	var cols []string
+	for _, c := range t.Cols {
+		cols = append(cols, CoqCol(s, c))
+	}
+	var idx []string
+	for _, ix := range t.Indexes {
+		var cs []string
+		for _, c := range ix {
+			cs = append(cs, fmt.Sprintf("%d%%N", s.ID(c)))
+		}
+		idx = append(idx, "["+strings.Join(cs, "; ")+"]")
+	}
+	return fmt.Sprintf("mkTable %d%%N [%s] [%s] %v", s.ID(t.Name), strings.Join(cols, ";\n    "), strings.Join(idx, "; "), t.IsRoot)
+}
+
+// CoqSchema prints a [schema] term.
+func CoqSchema(s *val.Syms, sc Schema) string {
+	var ts []string
+	for _, t := range sc.Tables {
+		ts = append(ts, "("+CoqTable(s, t)+")")
+	}
+	return "mkSchema [" + strings.Join(ts, ";\n  ") + "]"
+}
+
+// CoqRow prints [(col, lvalue); ...] (to be wrapped by mkrow) in sorted column order.
+func CoqRow(s *val.Syms, vals map[string]val.Val) string {
+	var parts []string
+	for _, k := range SortedKeys(vals) {
+		parts = append(parts, fmt.Sprintf("(%d%%N, %s)", s.ID(k), s.LVal(vals[k])))
+	}
+	return "[" + strings.Join(parts, "; ") + "]"
+}
+
+func CoqOptRow(s *val.Syms, vals map[string]val.Val, present bool) string {
+	if !present {
+		return "None"
+	}
+	return "(Some " + CoqRow(s, vals) + ")"
+}
+
+// RowMap reads all columns of a model into a map.
+func (d *DB) RowMap(m model.Model, table string) map[string]val.Val {
+	t := d.Spec.Table(table)
+	out := map[string]val.Val{}
+	for _, c := range t.Cols {
+		out[c.Name] = d.Get(m, table, c.Name)
+	}
+	return out
+}
+
+func JSONRow(vals map[string]val.Val) map[string]interface{} {
+	out := map[string]interface{}{}
+	for k, v := range vals {
+		out[k] = v.JSONable()
+	}
+	return out
+}
